@@ -415,16 +415,21 @@ def touched(dispatcher, service):
     return service.calls + (q.qsize() if q is not None else 0)
 
 
+# wsa:Action values no handler is registered for - xs:anyURI accepts all of them, so schema validation lets them through
+UNKNOWN_ACTIONS = ('urn:unknown', 'urn:\u20acuro', 'urn:x\r\nX-Injected: yes', 'urn:x\ny', 'urn:\x00')
+UNKNOWN_ACTION = ['urn:unknown']
+
+
 def mk_component(mr, act, ho, go, deferred):
     service = Service(ho, go)
-    reader = StubReader(mr, ACTION if act else 'urn:unknown')
+    reader = StubReader(mr, ACTION if act else UNKNOWN_ACTION[0])
     factory = StubFactory()
     disp = mk_dispatcher(deferred, service)
     comp = MessageConverterMiddleware(reader, factory, hs.NullLogger(), disp)
     return comp, service, reader, factory, disp
 
 
-def middleware_post(mr: int, act: bool, ho: int, deferred: bool, path: int) -> str:
+def middleware_post(mr: int, act: bool, ho: int, deferred: bool, path: int, ua: int = 0) -> str:
     """
     MessageConverterMiddleware.do_post with reader outcome x (un)registered action x handler outcome x dispatcher kind:
     never raises, returns (status, reason, body) with status 200 (proper response) or 4xx/5xx (fault built from a Fault);
@@ -432,11 +437,13 @@ def middleware_post(mr: int, act: bool, ho: int, deferred: bool, path: int) -> s
     pre: 0 <= mr < 3
     pre: 0 <= ho < 4
     pre: 0 <= path < 4
+    pre: 0 <= ua < 5
     post: __return__ == 'ok'
     """
     mr, act, deferred = pick(mr, (0, 1, 2)), bool(act), bool(deferred)
     ho = pick(ho, (0, 1, 2, 3)) if (mr == 0 and act and not deferred) else 0
     path = pick(path, ('/k', '/k/Get', 'k', ''))
+    UNKNOWN_ACTION[0] = UNKNOWN_ACTIONS[0] if act else pick(ua, UNKNOWN_ACTIONS)
     with untraced():
         orc = Oracle()
         try:
@@ -449,6 +456,11 @@ def middleware_post(mr: int, act: bool, ho: int, deferred: bool, path: int) -> s
             status, reason, body = result
             orc.check(isinstance(status, int) and (status == 200 or 400 <= status <= 599), 'do_post:bad-status')
             orc.check(isinstance(reason, str) and isinstance(body, bytes), 'do_post:bad-reason-or-body')
+            try:
+                reason.encode('latin-1', 'strict')
+            except UnicodeError:
+                orc.fail('do_post:reason-not-encodable-in-a-status-line')
+            orc.check('\r' not in reason and '\n' not in reason, 'do_post:line-break-in-reason')
             accepted = mr == 0 and act and (deferred or ho == 0)
             orc.check((status == 200) == accepted, 'do_post:status-vs-outcome')
             if status == 200:
@@ -508,9 +520,12 @@ class RecHandler(DispatchingRequestHandler):
         self.out = []
 
     def send_response(self, code, message=None):
+        if message is not None:
+            message.encode('latin-1', 'strict')       # as BaseHTTPRequestHandler.send_response_only does with the status line
         self.out.append(('status', code, message))
 
     def send_header(self, keyword, value):
+        f'{keyword}: {value}'.encode('latin-1', 'strict')       # as BaseHTTPRequestHandler.send_header
         self.out.append(('header', keyword.lower(), value))
 
     def end_headers(self):
@@ -529,6 +544,9 @@ def check_exchange(orc, h, tag):
         return None
     code = statuses[0][1]
     orc.check(isinstance(code, int) and (code == 200 or 400 <= code <= 599), tag + ':bad-status')
+    for r in h.out:       # nothing the handler writes into the response head may break out of its line
+        for text in r[2:] if r[0] == 'status' else r[1:]:
+            orc.check('\r' not in str(text) and '\n' not in str(text), tag + ':line-break-in-response-head')
     if not orc.check(('end',) in h.out, tag + ':headers-never-ended'):
         return code
     hdr = {r[1]: r[2] for r in h.out if r[0] == 'header'}
@@ -646,7 +664,7 @@ TARGETS = (('/k', '/k/Get', '/k/?wsdl', 'k', 'http://h/k/?wsdl', '/k#f', '/k?wsd
 
 
 def handler_post(rs: int, tclass: int, target: int, has_disp: bool, mr: int, act: bool, ho: int, deferred: bool, ae: int,
-                 chunk: int) -> str:
+                 chunk: int, ua: int = 0) -> str:
     """
     do_POST end to end over stubbed XML: framing scenario x request target x dispatcher present x message-reader outcome x
     action registered x handler outcome x dispatcher kind x Accept-Encoding x chunked response.
@@ -657,8 +675,10 @@ def handler_post(rs: int, tclass: int, target: int, has_disp: bool, mr: int, act
     pre: 0 <= ho < 4
     pre: 0 <= ae < 3
     pre: 0 <= chunk < 3
+    pre: 0 <= ua < 5
     post: __return__ == 'ok'
     """
+    UNKNOWN_ACTION[0] = UNKNOWN_ACTIONS[0] if act else pick(ua, UNKNOWN_ACTIONS)
     rs = pick(rs, tuple(range(6)))
     has_disp = bool(has_disp)
     target = pick(target, pick(tclass, TARGETS))
@@ -714,4 +734,109 @@ def request_data_paths(t0: int, t1: int, t2: int, t3: int) -> str:
                 orc.check(got == cur, 'request_data:consume-returns-other-element')
         except Exception as ex:  # noqa: BLE001
             return exc_result(orc, ex, 'RequestData')
+        return orc.result()
+
+
+# ------------------------------------------------------------------------------------------------ XML entities (real lxml)
+
+_ENT = {}
+
+
+def _entity_env():
+    """Real MessageReader instances (with and without schema validation) and the files external entities point to.
+    Built at import: CrossHair's side-effect wall refuses file creation while a path is being analysed."""
+    if not _ENT:
+        import logging
+        import os
+        from sdc11073.definitions_sdc import SdcV1Definitions
+        from sdc11073.pysoap.msgreader import MessageReader
+        d = os.path.join(os.path.dirname(os.path.dirname(os.path.abspath(__file__))), '.work', 'c13_entities')
+        os.makedirs(d, exist_ok=True)
+        secret, dtd = os.path.join(d, 'secret.txt'), os.path.join(d, 'ext.dtd')
+        for path, content in ((secret, 'SECRETFILE'), (dtd, '<!ENTITY a "EXPANDEDTEXT">')):
+            if not os.path.exists(path):
+                tmp = f'{path}.{os.getpid()}'
+                with open(tmp, 'w') as f:
+                    f.write(content)
+                os.replace(tmp, path)
+        _ENT.update(dir=d, secret=secret, dtd=dtd,
+                    plain=MessageReader(SdcV1Definitions, None, logger=logging.getLogger('verif'), validate=False),
+                    valid=MessageReader(SdcV1Definitions, None, logger=logging.getLogger('verif'), validate=True))
+    return _ENT
+
+
+_entity_env()
+
+
+def _entity_doc(ekind, place, env):
+    """SOAP 1.2 GetMdib request whose DOCTYPE declares entities (by kind) that are referenced at `place`."""
+    ref = '&a;'
+    if ekind == 0:
+        subset = '<!ENTITY a "EXPANDEDTEXT">'
+    elif ekind == 1:
+        subset = '<!ENTITY z "EXPANDEDTEXT"><!ENTITY y "&z;&z;&z;&z;&z;&z;&z;&z;"><!ENTITY a "&y;&y;&y;&y;&y;&y;&y;&y;">'
+    elif ekind == 2:
+        subset = f'<!ENTITY a SYSTEM "file://{env["secret"]}">'
+    elif ekind == 3:
+        subset = f'<!ENTITY % ext SYSTEM "file://{env["dtd"]}"> %ext;'
+    else:
+        subset, ref = '', 'plain'
+    doctype = f'<!DOCTYPE Envelope [{subset}]>' if ekind != 5 else f'<!DOCTYPE Envelope SYSTEM "file://{env["dtd"]}">'
+    if ekind == 5:
+        ref = '&a;'
+    mid = 'urn:uuid:' + (ref if place == 0 else '1')
+    attr = ref if place == 1 else 'x'
+    body = ref if place == 2 else ''
+    return (f'<?xml version="1.0"?>{doctype}'
+            '<s12:Envelope xmlns:s12="http://www.w3.org/2003/05/soap-envelope" xmlns:wsa="http://www.w3.org/2005/08/addressing" '
+            'xmlns:msg="http://standards.ieee.org/downloads/11073/11073-10207-2017/message">'
+            '<s12:Header><wsa:Action>http://standards.ieee.org/downloads/11073/11073-20701-2018/GetService/GetMdib</wsa:Action>'
+            f'<wsa:MessageID>{mid}</wsa:MessageID><wsa:To s12:role="{attr}">urn:to</wsa:To></s12:Header>'
+            f'<s12:Body><msg:GetMdib>{body}</msg:GetMdib></s12:Body></s12:Envelope>').encode()
+
+
+def _tree_texts(node):
+    for el in node.iter():
+        if isinstance(el.tag, str):
+            yield el.text or ''
+            yield el.tail or ''
+            yield from (str(v) for v in el.attrib.values())
+
+
+def xml_entities(site: int, ekind: int, place: int) -> str:
+    """
+    A request / response / WSDL document with a DOCTYPE is handed to each parse site that takes bytes from the network (0, 1:
+    MessageReader.read_received_message without / with schema validation, 2: read_xml_text, 3: read_wsdl). ekind: 0 internal
+    entity, 1 nested internal entities (x64), 2 external SYSTEM entity (local file), 3 external parameter entity that declares
+    the entity, 4 DOCTYPE without entity reference (control), 5 external DTD subset that declares the entity; place: reference
+    in element text / attribute value / body. Either the document is refused, or nothing in the tree handed on contains
+    the replacement text (no expansion) or the file content (no fetch).
+    pre: 0 <= site < 4
+    pre: 0 <= ekind < 6
+    pre: 0 <= place < 3
+    post: __return__ == 'ok'
+    """
+    site, ekind, place = pick(site, (0, 1, 2, 3)), pick(ekind, tuple(range(6))), pick(place, (0, 1, 2))
+    with untraced():
+        orc = Oracle()
+        try:
+            env = _entity_env()
+            doc = _entity_doc(ekind, place, env)
+            try:
+                if site in (0, 1):
+                    msg = (env['plain'], env['valid'])[site].read_received_message(doc, validate=bool(site))
+                    root = msg.p_msg.doc_root if hasattr(msg.p_msg, 'doc_root') else msg.p_msg.msg_node.getroottree().getroot()
+                    hib = msg.p_msg.header_info_block
+                    extra = [str(hib.MessageID), str(hib.To)]
+                elif site == 2:
+                    root, extra = env['plain'].read_xml_text(doc), []
+                else:
+                    root, extra = env['plain'].read_wsdl(doc).getroot(), []
+            except Exception:  # noqa: BLE001
+                return orc.result()       # refused: answered with a fault by the middleware (C13.middleware.*)
+            texts = list(_tree_texts(root)) + extra
+            orc.check(not any('EXPANDEDTEXT' in t for t in texts), 'xml-entity-expanded')
+            orc.check(not any('SECRETFILE' in t for t in texts), 'external-entity-fetched')
+        except Exception as ex:  # noqa: BLE001
+            return exc_result(orc, ex, 'harness')
         return orc.result()
